@@ -15,6 +15,10 @@ Definition unitig_ops : list (string * handler) :=
         | Some s, Some T => Some (VL [ofbool (tbl_okb pay (N.to_nat k) s T); ofbool (exts_symb pay s T);
                                       ofbool (exts_closedb pay s T)])
         | _, _ => None end | _ => None end);
+    ("chk.total"%string, fun a => match a with [VN k; st; VN mode; VL tbl] =>
+        match vbool st, omap v_entry tbl with
+        | Some s, Some T => Some (ofbool (match compress_kmers pay pay_reduce (pay_join mode) s T with Some _ => true | None => false end))
+        | _, _ => None end | _ => None end);
     ("chk.c02p"%string, fun a => match a with [VN k; st; VN mode; VL tbl; VL nodes] =>
         match vbool st, omap v_entry tbl, omap v_node nodes with
         | Some s, Some T, Some ns => Some (ofbool (chk_c02p pay (pay_join mode) (N.to_nat k) s T ns))
